@@ -88,27 +88,45 @@ fn obj(k: &str, rep: u32, ticks: u32, dur: u32, snd: u32) -> AbsObj {
     AbsObj { k: k.into(), rep, ticks, dur, gap: 0, pos: 0, snd }
 }
 
-/// The concrete maps and settings behind the abstract names of MC_Session (chosen by seed).
+/// The concrete maps and settings behind the abstract names of MC_Session / MC_Threads (numbers chosen by seed).
+/// m1 osu (convertible, sliders, spinner), m2 taiko, m3 catch, m4 mania.
 pub fn pool(seed: u64) -> Pool {
     let mut rng = StdRng::seed_from_u64(seed ^ 0x5e55);
     let mut texts = HashMap::new();
-    // m1: a convertible osu map with sliders / spinner and a tie-heavy timing section
     let mut objs = vec![obj("C", 0, 0, 0, 1), obj("S", 1, 1, 0, 2), obj("C", 0, 0, 0, 0), obj("S", 0, 0, 0, 3), obj("P", 0, 0, 0, 0), obj("C", 0, 0, 0, 2)];
     objs.extend(random_objs(&mut rng, "osu", 6));
     let t = concretize("osu", &objs, &profile(seed as u32));
-    // equal total durations for two beat lengths: the bpm tie
+    // a second uninherited section and an inherited kiai section
     let t = t.replacen("\n\n[HitObjects]", "\n4000,400,4,2,0,100,1,0\n8000,-50,4,2,0,100,0,1\n\n[HitObjects]", 1);
     texts.insert("m1".to_string(), t);
-    let mode2 = ["taiko", "catch", "mania"][(seed % 3) as usize];
-    let objs2 = random_objs(&mut rng, mode2, 10);
-    texts.insert("m2".to_string(), concretize(mode2, &objs2, &profile(seed as u32 + 1)));
+    // m2..m4: a window of the real fixture of the mode (real rhythm / timing detail), synthetic fallback
+    for (name, mode, n, id) in [("m2", "taiko", 90usize, "1028484"), ("m3", "catch", 60, "2118524"), ("m4", "mania", 90, "1638954")] {
+        let text = std::fs::read_to_string(format!("/repo/resources/{id}.osu")).ok().and_then(|t| {
+            let ls: Vec<&str> = t.lines().collect();
+            let ho = ls.iter().position(|l| l.trim() == "[HitObjects]")?;
+            let start = ho + 1 + (seed as usize * 37) % (ls.len() - ho - 1 - n).max(1);
+            let mut keep: Vec<&str> = ls[..=ho].to_vec();
+            keep.extend(ls[start..(start + n).min(ls.len())].iter());
+            Some(keep.join("\n"))
+        });
+        let text = text.unwrap_or_else(|| {
+            let o = random_objs(&mut rng, mode, 14);
+            concretize(mode, &o, &profile(seed as u32 + n as u32))
+        });
+        texts.insert(name.to_string(), text);
+    }
     let all = cfgs("quick");
     let mut c = HashMap::new();
     c.insert("A".to_string(), all[1].clone());
     c.insert("B".to_string(), all[3].clone());
     c.insert("-".to_string(), all[0].clone());
+    // lazer mods with settings: taiko DifficultyAdjust scroll speed, and a different overall difficulty
+    c.insert("C".to_string(), Cfg { mods: 0, da_scroll: Some(2.0), od: Some((9.5, false)), ..Default::default() });
+    c.insert("D".to_string(), Cfg { mods: 16, da_scroll: Some(0.5), od: Some((2.0, false)), clock_rate: Some(0.8), ..Default::default() });
     Pool { texts, cfgs: c }
 }
+
+pub const GSTEPS: usize = 4;
 
 fn digest(s: &str) -> String {
     format!("{:016x}", hash_str(s))
@@ -148,7 +166,8 @@ impl<'a> Runner<'a> {
                 let e = self.grads.entry(c.h.clone()).or_insert_with(|| (GradualDifficulty::new(d.clone(), map), 0));
                 e.1 += 1;
                 key = format!("{}/{}/{}/{}", c.op, c.m, c.cfg, e.1);
-                format!("{:?}", e.0.next())
+                // one "gnext" = GSTEPS consecutive next() calls (differences may only show after several objects)
+                (0..GSTEPS).map(|_| format!("{:?}", e.0.next())).collect::<Vec<_>>().join("|")
             }
             other => format!("unknown op {other}"),
         });
@@ -283,7 +302,7 @@ pub fn threads_main(args: &[String]) -> i32 {
                             let taken = handles.lock().unwrap().remove(&c.h);
                             let cfg = &pool.cfgs[&c.cfg];
                             let (mut g, n) = taken.unwrap_or_else(|| (GradualDifficulty::new(cfg.difficulty(), &maps[&c.m]), 0));
-                            let r = guarded(|| format!("{:?}", g.next()));
+                            let r = guarded(|| (0..GSTEPS).map(|_| format!("{:?}", g.next())).collect::<Vec<_>>().join("|"));
                             let n = n + 1;
                             handles.lock().unwrap().insert(c.h.clone(), (g, n));
                             let key = format!("{}/{}/{}/{}", c.op, c.m, c.cfg, n);
@@ -326,7 +345,24 @@ pub fn threads_main(args: &[String]) -> i32 {
         }
     }
     // stress: the plain jobs on many threads at once, no coordination
-    let plain: Vec<Call> = schedules.iter().flat_map(|s| s.jobs.iter().cloned()).filter(|c| c.op != "gnext").take(6).collect();
+    // every (map, settings, operation) combination, so that any state shared between calls with DIFFERENT inputs shows
+    let mut plain: Vec<Call> = Vec::new();
+    for m in ["m1", "m2", "m3", "m4"] {
+        for cfg in ["A", "B", "C", "D"] {
+            for op in ["calc", "strains", "perf"] {
+                plain.push(Call { op: op.into(), m: m.into(), cfg: cfg.into(), h: "-".into() });
+            }
+        }
+    }
+    {
+        // sequential baseline for the stress jobs
+        let mut r = Runner::new(&pool);
+        for c in &plain {
+            let (key, dg, panic) = exec_plain(&pool, &maps, c);
+            let _ = &mut r;
+            lines.push(json!({"proc": "sequential", "hist": 0, "key": key, "digest": dg, "panic": panic, "map": c.m, "mapdigest": mapdigest(&c.m)}).to_string());
+        }
+    }
     let nt = n_threads().min(16);
     for round in 0..stress {
         let outs: Vec<Vec<(String, String, bool, String)>> = std::thread::scope(|s| {
@@ -338,7 +374,7 @@ pub fn threads_main(args: &[String]) -> i32 {
                     s.spawn(move || {
                         let mut v = Vec::new();
                         for k in 0..plain.len() {
-                            let c = &plain[(k + t) % plain.len()];
+                            let c = &plain[(k * (2 * t + 1) + 5 * t) % plain.len()];
                             let (key, d, p) = exec_plain(pool, maps, c);
                             v.push((key, d, p, c.m.clone()));
                         }
